@@ -78,6 +78,27 @@ PROPS = {
                 "oracle: len(out) <= n + n/32 + 256, resp. <= n/32 + 1200, and the output decodes to the input. Non-trivial = n >= 1. measurements report the worst observed fraction of each bound per setting.",
         "assumptions": COMMON_ASSUME,
     },
+    "C02": {
+        "level": "exploration",
+        "tests": [{"name": "TestC02", "quick": 5000, "thorough": 80000}],
+        "fuzz": [{"name": "FuzzC02Synth", "time": "120s"}],
+        "rule": "cases = valid DEFLATE streams from (a) the block-level synthesiser (stored/fixed/dynamic blocks, random complete prefix codes up to 15 bits incl. chain-shaped ones, degenerate single/no distance code, drawn run-length encodings of the header, HLIT/HDIST/HCLEN padding, overlap copies, distances up to 32768, empty blocks, hundreds of tiny blocks, output beyond the 64 KiB history), (b) compress/flate at levels -2..9 and (c) fastgo's own Writers over data recipes with Flushes; x a drawn cyclic sequence of Read buffer sizes; per acceleration level. "
+                "Oracle: concatenated Read results == compress/flate's output == reference inflater's == synthesiser's by-construction output, then io.EOF, further Reads (0, io.EOF). "
+                "Non-trivial = the reference trace shows at least one of: a 15-bit code, 1-bit code next to >=13-bit, lit/len code >12 bits used, distance code >10 bits used, header run crossing the lit/dist boundary, single/no distance code, stored block at a bit offset, distance >=32000, overlap copy, empty block, >=100 blocks, output >64 KiB.",
+        "assumptions": COMMON_ASSUME,
+    },
+    "C03": {
+        "level": "exploration",
+        "tests": [
+            {"name": "TestC03", "quick": 6000, "thorough": 100000},
+            {"name": "TestC03Ex", "kind": "plain"},
+        ],
+        "fuzz": [{"name": "FuzzC03AnyBytes", "time": "150s"}],
+        "rule": "cases = random bytes (0..64), mutated valid streams (bit flips, substitutions, insertions, deletions, truncation), valid streams cut at a drawn byte, synthesised streams with one injected fault at a drawn block (distance beyond data produced, unassigned distance code, distance code used with none declared, over-subscribed lit/dist/code-length code, incomplete lit/len code, missing end-of-block code, repeat with nothing to repeat, run past the declared count, stored LEN!=~NLEN, reserved block type, length symbols 286/287, distance symbols 30/31, HLIT>29) usually followed by a long tail; placed first in a fresh Reader or after 1-3 earlier uses through Reset; x Read sizes x source chunking; plus every truncation point of fixed small valid streams (exhaustive). "
+                "Oracle: no panic; terminates (livelock bound + watchdog); bytes handed out are a prefix of the reference inflater's output; io.EOF only if the (permissive) reference judges the input to begin with a complete stream and all its bytes were delivered, and always if compress/flate accepts; constructed prefixes end in io.ErrUnexpectedEOF; a defect with >=400 input bytes after it ends in CorruptInputError; the error repeats on later Reads. "
+                "Non-trivial = reference verdict is not VALID and the defect/truncation lies after the first complete block header.",
+        "assumptions": COMMON_ASSUME,
+    },
 }
 
 # Texts for MANIFEST.json, per claimed property.
@@ -129,5 +150,17 @@ MANIFEST_TEXT = {
         "text": "Generated uniform / near-uniform / Fibonacci-skewed / alternating inputs and periodic inputs are compressed and the output length is compared with the stated bounds; worst observed fraction of the bound is reported per setting.",
         "note": "Bounds are the property's; decoding uses compress/flate.",
         "design_ref": "DESIGN.md section 4, C20",
+    },
+    "C02": {
+        "technique": "property-based testing (rapid) with a block-level DEFLATE stream synthesiser; differential against compress/flate and an independent reference inflater",
+        "text": "Streams are synthesised block by block so that every legal code shape is reached (not only what one encoder emits), then read through fastgo's Reader with generated buffer-size sequences and compared with compress/flate, the reference inflater and the synthesiser's by-construction output. Thorough adds a coverage-guided native fuzz campaign over synthesiser recipes.",
+        "note": "Streams the standard library rejects are outside this property's domain; if the generator ever produces one it is reported as a harness (oracle) error, never as a violation.",
+        "design_ref": "DESIGN.md section 4, C02",
+    },
+    "C03": {
+        "technique": "property-based testing (rapid) with a fault-injecting stream synthesiser and byte-level mutators; reference-inflater oracle (strict and permissive bounds); exhaustive truncation of small streams; native fuzzing in the thorough tier",
+        "text": "Every generated malformed input is judged by the reference inflater (strict = compress/flate's rules, permissive = upper bound of what may be accepted); the Reader's bytes must be a prefix of the reference output and its terminal error must be of the right kind and sticky. Faults are placed after other blocks and followed by long tails so that table-reuse and look-ahead paths are exercised.",
+        "note": "Error kind for inputs that are both truncated and defective is only constrained as the property allows (either error) unless >=400 bytes follow the defect.",
+        "design_ref": "DESIGN.md section 4, C03",
     },
 }
